@@ -248,17 +248,11 @@ func (rs *recvStream) Recv() (*hashmailrpc.CipherBox, error) {
 	}
 }
 
-// CloseSend on a receive stream: the client hangs up.
-func (rs *recvStream) CloseSend() error {
-	rs.r.mu.Lock()
-	if rs.s != nil && rs.s.reader == rs {
-		rs.s.reader = nil
-		rs.r.emit("closeRecv", rs.s.id, 0, "")
-	}
-	rs.r.mu.Unlock()
-	rs.fail(io.EOF)
-	return nil
-}
+// CloseSend on a receive stream does nothing: RecvStream is a server-streaming
+// call whose request side was half-closed when it was opened; the relay
+// releases the read end only when the call's context ends (or the stream
+// breaks).
+func (rs *recvStream) CloseSend() error { return nil }
 
 // ---- send side ------------------------------------------------------------
 
